@@ -162,7 +162,12 @@ func geomCase(k *run.K) {
 			t = model.ScaleXY(t, []int{-30, -3, 7, 40, 200}[k.Rng.Intn(5)])
 		}
 	}
-	x = model.ToGeom(t)
+	judgeTree(k, t)
+}
+
+// judgeTree runs the geometry monitors on one (valid) tree.
+func judgeTree(k *run.K, t model.Tree) {
+	x := model.ToGeom(t)
 	if v := exact.ValidGeom(x); !v.OK {
 		k.Skip("roundtrip-image")
 		k.Count("invalid_candidates_skipped", 1)
@@ -681,6 +686,21 @@ func featureCase(k *run.K) {
 func runAll(c *run.Ctx) {
 	for i := 0; i < c.N(16000, 200000); i++ {
 		c.Case("geom", i, geomCase)
+	}
+	// curves of every length 1..140 (and around 256, 512, 1024) followed by further curves
+	idx := 0
+	sizes := []int{254, 255, 256, 257, 258, 511, 512, 513, 1023, 1024, 1025}
+	for n := 2; n <= 140; n++ {
+		sizes = append(sizes, n)
+	}
+	for _, n := range sizes {
+		for _, ct := range model.CTypes {
+			for _, kind := range []int{0, 2} {
+				idx++
+				n, ct, kind := n, ct, kind
+				c.Case("sized", idx, func(k *run.K) { judgeTree(k, model.SizedTree(kind, n, ct)) })
+			}
+		}
 	}
 	for i := 0; i < c.N(5000, 100000); i++ {
 		c.Case("grammar", i, grammarCase)
